@@ -91,6 +91,10 @@ func HasEOF(r io.ReaderAt) (bool, error) {
 		return false, ErrNoEnd
 	}
 
+	if size < int64(len(magicBlock)) {
+		// Too short to hold the magic block.
+		return false, nil
+	}
 	b := make([]byte, len(magicBlock))
 	_, err := r.ReadAt(b, size-int64(len(magicBlock)))
 	if err != nil {
